@@ -279,6 +279,8 @@ class Exec:
                 return v
             if txt in ("np.pi", "math.pi", "numpy.pi"):
                 return E("var", "R", (), name="F.pi")
+            if txt in ("np.nan", "numpy.nan", "math.nan"):
+                return E("var", "R", (), name="F.nan")
             raise TranslateError("attribute %s" % txt)
         if isinstance(n, ast.Call):
             return self.call(n)
@@ -317,7 +319,7 @@ class Exec:
             return self.env[base.id].fn(idx)
         # X[msk], X[:, msk], X[0, msk] on element-wise arrays: the element itself
         sl = ast.unparse(n.slice)
-        if sl in ("msk", ":, msk", "..."):
+        if sl in ("msk", ":, msk", "...", "(..., np.newaxis)", "..., np.newaxis"):
             return self.ev(base)
         if isinstance(base, ast.Name) and base.id == "mxy":
             if sl in ("0", "1"):
@@ -328,6 +330,12 @@ class Exec:
         f = ast.unparse(n.func)
         short = f.split(".")[-1]
         args = n.args
+        if short == "item" and isinstance(n.func, ast.Attribute) and not args:
+            return self.ev(n.func.value)
+        if f in ("np.arange", "numpy.arange") and len(args) == 3:
+            trip = E("tuple", "T", [cast(self.ev(a), "R") for a in args])
+            self.probes.append(("arange", tuple(self.path), trip))
+            return var("zeta", "R")
         if f.startswith(("np.", "numpy.", "math.")) or f in ("abs", "max", "int", "float", "len"):
             if short in FN1 and len(args) == 1:
                 a = self.ev(args[0])
@@ -378,6 +386,8 @@ class Exec:
                 return cast(num(0.0), "C") if cplx else num(0.0)
             if short in ("asarray", "array", "squeeze") and len(args) == 1:
                 return self.ev(args[0])
+        if f in getattr(self, "user_fns", {}) and len(args) == 1:
+            return E("app", "R", (cast(self.ev(args[0]), "R"),), name=self.user_fns[f])
         if f in ("spsp.gamma", "special.gamma", "scipy.special.gamma") and len(args) == 1:
             return E("app", "R", (cast(self.ev(args[0]), "R"),), name="Γ")
         raise TranslateError("call %s" % ast.unparse(n))
@@ -410,7 +420,9 @@ class Exec:
             return Opaque(str(e))
 
     def walk(self, body, path):
+        self.path = path
         for s in body:
+            self.path = path
             if isinstance(s, ast.Assign):
                 v = self.try_ev(s.value)
                 for t in s.targets:
@@ -432,8 +444,11 @@ class Exec:
                 merged = {}
                 for k in set(env_a) | set(env_b):
                     va, vb = env_a.get(k), env_b.get(k)
-                    if va is vb:
+                    if va is vb or (isinstance(va, E) and isinstance(vb, E) and repr(va) == repr(vb)):
                         merged[k] = va
+                    elif k not in env_a or k not in env_b:
+                        # defined on one path only: any later use is on that path (else Python raises NameError)
+                        merged[k] = va if k in env_a else vb
                     elif k in self.env0:
                         merged[k] = self.env0[k]
                     else:
@@ -479,9 +494,12 @@ class Exec:
 
     # -- queries
     def probe(self, target, path_has=(), path_not=(), which=-1):
+        def seg_match(h, seg):
+            # "text$" = the whole segment must equal text; otherwise substring
+            return seg == h[:-1] if h.endswith("$") else h in seg
         hits = [(t, p, v) for (t, p, v) in self.probes if t == target
-                and all(any(h in seg for seg in p) for h in path_has)
-                and not any(any(h in seg for seg in p) for h in path_not)]
+                and all(any(seg_match(h, seg) for seg in p) for h in path_has)
+                and not any(any(seg_match(h, seg) for seg in p) for h in path_not)]
         if not hits:
             raise TranslateError("no assignment to `%s` found (path %s)" % (target, path_has))
         v = hits[which][2]
@@ -519,7 +537,6 @@ variable {R C : Type}
 variable [Add R] [Sub R] [Mul R] [Div R] [Neg R] [OfScientific R] [HPow R Nat R]
 variable [LT R] [DecidableLT R] [LE R] [DecidableLE R]
 variable [Add C] [Sub C] [Mul C] [Div C] [Neg C] [OfScientific C] [HPow C Nat C]
-variable (F : Fns R C)
 
 """
 FOOTER = """
@@ -553,7 +570,7 @@ class Group:
             if e.k == "tuple":
                 ret = " × ".join({"N": "Nat", "R": "R", "C": "C"}[x.ty] for x in e.a)
             ps = " ".join("(%s : %s)" % (p, TY[t]) for p, t in params)
-            self.defs.append("def %s %s : %s :=\n  %s\n" % (kname, ps, ret, body))
+            self.defs.append("def %s (F : Fns R C) %s : %s :=\n  %s\n" % (kname, ps, ret, body))
             self.report[kname] = "ok"
         except TranslateError as ex:
             self.report[kname] = "FAILED: %s" % ex
@@ -840,6 +857,94 @@ def misc_group():
     return g
 
 
+def pbl_group():
+    src = os.path.join(REPO_SRC, "pbl_model.py")
+    g = Group("PblK", "src/bldfm/pbl_model.py")
+
+    def fn1(name):
+        def f():
+            ex = simple_fn(src, name, dict(x=var("x", "R")))
+            return ret_component(ex)
+        return f
+    g.kernel("psi", [("x", "R")], fn1("psi"))
+    g.kernel("phi", [("x", "R")], fn1("phi"))
+
+    # vertical_profiles: psi/phi calls stay symbolic applications of the generated psi/phi
+    try:
+        fn = load_fn(src, "vertical_profiles")
+        env = dict(n=var("n", "N"), meas_height=var("zm", "R"), ustar=var("ustar", "R"), z0=var("z0", "R"),
+                   mol=var("mol", "R"), prsc=var("prsc", "R"), domain_height=var("dh", "R"), stretch=var("st", "R"),
+                   tke=var("tke", "R"))
+        aliases = {"wind": E("tuple", "T", [var("um", "R"), var("vm", "R")])}
+        ex = Exec(fn, env, aliases)
+        ex.user_fns = {"psi": "psiG", "phi": "phiG"}
+        ex.run()
+        vp, vp_err = ex, None
+    except TranslateError as e:
+        vp, vp_err = None, str(e)
+
+    def vq(target, **kw):
+        def f():
+            if vp is None:
+                raise TranslateError(vp_err)
+            return vp.probe(target, **kw)
+        return f
+    MOSTF = "if:closure == 'CONSTANT' or closure == 'MOST' or closure == 'MOSTM'$"
+    BASE = [("zm", "R"), ("um", "R"), ("vm", "R"), ("ustar", "R"), ("z0", "R"), ("mol", "R"), ("prsc", "R"),
+            ("dh", "R"), ("st", "R"), ("tke", "R"), ("n", "N"), ("zeta", "R"), ("psiG", "G"), ("phiG", "G")]
+    g.kernel("absum", BASE, vq("absum", which=0))
+    g.kernel("z0FromUstar", BASE, vq("z0", path_has=(MOSTF, "if:z0 is None$")))
+    g.kernel("ustarFromZ0", BASE, vq("ustar", path_has=(MOSTF, "if:ustar is None$")))
+    g.kernel("z0Oaahoc", BASE, vq("z0", path_has=("if:closure == 'OAAHOC'$",), path_not=("if:closure == 'MOSTM'$",), which=0))
+    g.kernel("hDefault", BASE, vq("h", path_has=("if:stretch is None$",)))
+    g.kernel("zmxDefault", BASE, vq("zmx", path_has=("if:domain_height is None$",)))
+
+    # the grid: evaluated with (z0, ustar, h, zmx) as the resolved input symbols
+    def grid(target, freeze_z=False, **kw):
+        def f():
+            if vp is None:
+                raise TranslateError(vp_err)
+            env = dict(vp.env0)
+            env.update(h=var("h", "R"), zmx=var("zmx", "R"))
+            fr = {"h", "zmx", "z0", "ustar", "tke"}
+            if freeze_z:
+                env["z"] = var("zk", "R")
+                fr.add("z")
+            e2 = Exec(vp.fn, env, vp.aliases, frozen=fr)
+            e2.user_fns = {"psi": "psiG", "phi": "phiG"}
+            e2.run()
+            return e2.probe(target, **kw)
+        return f
+    GR = [("zm", "R"), ("um", "R"), ("vm", "R"), ("ustar", "R"), ("z0", "R"), ("mol", "R"), ("prsc", "R"),
+          ("h", "R"), ("zmx", "R"), ("tke", "R"), ("n", "N"), ("zeta", "R"), ("psiG", "G"), ("phiG", "G")]
+    g.kernel("gridBB", GR, grid("bb"))
+    g.kernel("gridAA", GR, grid("aa"))
+    g.kernel("gridZetaMax", GR, grid("zetamx"))
+    g.kernel("dzeta", GR, grid("dzeta"))
+    g.kernel("arange", GR, grid("arange"))
+    g.kernel("gridZ", GR, grid("z"))
+    for clo, tag in (("Const", "if:closure == 'CONSTANT'$"), ("Most", "if:closure == 'MOST'$"),
+                     ("Mostm", "if:closure == 'MOSTM'$"), ("Oaahoc", "if:closure == 'OAAHOC'$")):
+        for nm in ("u", "v", "Kx", "Ky", "Kz"):
+            # second if-chain (profiles): the first chain (closure parameters) does not assign u, v, K*
+            g.kernel("%s%s" % (nm, clo), GR + [("zk", "R")], grid(nm, freeze_z=True, path_has=(tag,), which=-1))
+    # structure of the argument checks
+    try:
+        st = {}
+        for (p, t, v) in (vp.tests if vp else []):
+            st.setdefault("tests", []).append(t)
+        raises = []
+        for nd in ast.walk(vp.fn):
+            if isinstance(nd, ast.Raise):
+                raises.append(ast.unparse(nd.exc)[:60])
+        st["raises"] = raises
+        g.report["_static"] = st
+    except Exception as e:  # noqa: BLE001
+        g.report["_static"] = "FAILED: %r" % (e,)
+    g.write()
+    return g
+
+
 def rename(e, m):
     if not isinstance(e, E):
         raise TranslateError(getattr(e, "why", "not an expression"))
@@ -865,7 +970,7 @@ def refreeze(sol, sol_err, target, frozen, path_has=(), extra_aliases=None):
 def main():
     os.makedirs(OUT, exist_ok=True)
     report = {}
-    groups = [solver_group, misc_group]
+    groups = [solver_group, misc_group, pbl_group]
     for mk in groups:
         try:
             g = mk()
